@@ -10,6 +10,7 @@ import math
 from hypothesis import strategies as st
 
 from pbt.runner import Check
+from gnpy.core.exceptions import DisjunctionError
 from pbt.gens import netgen, services
 
 PROPERTY = 'C16'
@@ -138,8 +139,16 @@ def batch_case(draw):
                                 {'method': 'ggn_approx', 'computed_number_of_channels': 5},
                                 {'method': 'ggn_approx', 'computed_channels': [1, 4, 9]}]))
     sim = {} if nli is None else {'nli_params': dict({'dispersion_tolerance': 4, 'phase_shift_tolerance': 0.1}, **nli)}
+    # synchronisation vectors (pairs that must be disjoint): a request is then computed together with the requests of its
+    # vectors, in the order of the vector - and still independently of every other request and of the batch order
+    sync = []
+    if n >= 2 and draw(st.integers(0, 2)) == 0:
+        for _ in range(draw(st.integers(1, 2))):
+            a, b = draw(st.permutations(list(range(n))))[:2]
+            if [a, b] not in sync and [b, a] not in sync:
+                sync.append([a, b])
     return {'eq': eq, 'topo': topo, 'truth': truth, 'requests': reqs, 'orders': [list(o) for o in orders] + subsets,
-            'sim': sim}
+            'sim': sim, 'sync': sync}
 
 
 def digest(obj, depth=0, seen=None):
@@ -247,6 +256,22 @@ def _run(case, ctx, sim):
         return services.request_json(i, f"trx R{r['src']}", f"trx R{r['dst']}", trx_type='T0', trx_mode=r['mode'],
                                      spacing=r['spacing'], nb_channel=r['nch'], bidir=r['bidir'], include=inc,
                                      path_bandwidth=100e9, tx_power=txp)
+    sync = [p for p in case.get('sync', []) if max(p) < len(reqs)]
+    comp_of = list(range(len(reqs)))
+    for a, b in sync:
+        ca, cb = comp_of[a], comp_of[b]
+        comp_of = [ca if c == cb else c for c in comp_of]
+    components = [[i for i in range(len(reqs)) if comp_of[i] == c] for c in sorted(set(comp_of))]
+
+    def batch_json(order):
+        present = set(order)
+        data = {'path-request': [rq_json(i) for i in order]}
+        vectors = [services.sync_json(f's{k}', p) for k, p in enumerate(sync) if set(p) <= present]
+        if vectors:
+            data['synchronization'] = vectors
+        return data
+    if sync:
+        ctx.label('with-synchronization-vectors')
     json0 = copy.deepcopy(network_to_json(network))
     dig0 = net_digest(network)
     designed_gain = {n.uid: n.effective_gain for n in network.nodes() if hasattr(n, 'effective_gain')}
@@ -254,17 +279,22 @@ def _run(case, ctx, sim):
     base = {}
     saturating, blocked = set(), set()
     try:
-        for i in range(len(reqs)):
+        for comp in components:
             net_i, eq_i = copy.deepcopy(network), netgen.load_equipment(case['eq'])
             netgen.reset_sim_params(sim)     # "alone" = in a process that computed nothing before
-            oms, pths, rpths, rqs, dsjn, res = planning(net_i, eq_i, {'path-request': [rq_json(i)]})
-            base[i] = summarise(rqs[0], pths[0], rpths[0])
-            if base[i]['reason']:
-                blocked.add(i)
-            for e in (pths[0] or []):
-                g = designed_gain.get(e.uid)
-                if g is not None and getattr(e, 'effective_gain', None) is not None and abs(e.effective_gain - g) > 1e-9:
-                    saturating.add(i)
+            oms, pths, rpths, rqs, dsjn, res = planning(net_i, eq_i, batch_json(comp))
+            if any(not str(r.request_id).isdigit() for r in rqs):
+                ctx.label('not-judged:requests-aggregated-in-baseline')
+                return
+            for r, pth_, rpth_ in zip(rqs, pths, rpths):
+                i = int(r.request_id)
+                base[i] = summarise(r, pth_, rpth_)
+                if base[i]['reason']:
+                    blocked.add(i)
+                for e in (pth_ or []):
+                    g = designed_gain.get(e.uid)
+                    if g is not None and getattr(e, 'effective_gain', None) is not None and abs(e.effective_gain - g) > 1e-9:
+                        saturating.add(i)
     except Exception as e:  # noqa: OMS construction etc. is owned by C15; a crash of planning alone is not a batch effect
         from pbt.runner import classify_exception
         where, sig = classify_exception(e)
@@ -277,8 +307,25 @@ def _run(case, ctx, sim):
     if sim:
         ctx.label('nli:' + sim['nli_params']['method'] + (':number' if 'computed_number_of_channels' in sim['nli_params'] else ':list'))
     for order in case['orders']:
-        data = {'path-request': [rq_json(i) for i in order]}
-        oms, pths, rpths, rqs, dsjn, res = planning(network, equipment, data)
+        # a sub-batch holds whole synchronisation components (a vector naming an absent request is rejected at load time)
+        order = list(order) + [j for i in order for j in components[[k for k, c in enumerate(components) if i in c][0]]
+                               if j not in order]
+        order = list(dict.fromkeys(order))
+        data = batch_json(order)
+        # recorded finding: when a request belongs to two vectors, the outcome depends on the relative order of the requests
+        # of these vectors in the batch; such failures carry their own signature, every other one keeps the plain signature
+        tag = ''
+        if any([i for i in order if i in comp] != comp for comp in components
+               if any(sum(i in p for p in sync) > 1 for i in comp)):
+            tag = ':requests-of-overlapping-vectors-reordered'
+            ctx.label('ordering' + tag)
+        try:
+            oms, pths, rpths, rqs, dsjn, res = planning(network, equipment, data)
+        except DisjunctionError as e:
+            if not tag:
+                raise
+            ctx.violation('exception:DisjunctionError' + tag, f'order {order}, vectors {sync}: {e}')
+            return
         if any(not str(r.request_id).isdigit() for r in rqs):
             # requests merged under a joined id: legitimate only if they are the same request once the LOOSE hops that could
             # not be used (e.g. naming a fibre that auto-design split) are dropped
@@ -298,7 +345,7 @@ def _run(case, ctx, sim):
         for i in order:
             diff = same(base[i], got[i])
             if diff:
-                ctx.violation('result-depends-on-batch', f'request {i} ({reqs[i]["kind"]}) in order {order}: alone vs in batch: {diff}')
+                ctx.violation('result-depends-on-batch' + tag, f'request {i} ({reqs[i]["kind"]}) in order {order}: alone vs in batch: {diff}')
                 return
     dig1 = net_digest(network)
     if dig1 != dig0:
